@@ -365,6 +365,33 @@ def run(ctx, prog):
                     why = "returns %s instead of canConvertNumber<%s>(member)" % (fn.text(fn.s(e)["c"][0]), Tt)
             ctx.ob(rule, "isInteger<%s>: %s is exactly canConvertNumber<%s>(member)" % (Tt, t, Tt), ok, fn.where,
                    "" if ok else "is<%s>() for a stored %s: %s — it no longer holds exactly when the value fits" % (Tt, t, why), nontrivial=False)
+    # strings: the text is parsed straight into the requested type
+    nstr = 0
+    for meth in ("VariantData::asIntegral", "VariantData::asFloat"):
+        for fn in sorted(prog.q(meth), key=lambda f: f.key):
+            Tt = (fn.d.get("targs") or ["?"])[0]
+            cr = case_returns(fn)
+            for t in ("LinkedString", "OwnedString"):
+                if t not in T or not cr.get(t):
+                    continue
+                nstr += 1
+                ok = False
+                why = ""
+                for e in cr.get(t, []):
+                    r = fn.s(fn.strip(fn.s(e)["c"][0], casts=True))
+                    if r["k"] in P.CALL_KINDS and r.get("callee", {}).get("q", "").endswith("parseNumber"):
+                        ok = ("parseNumber<%s>" % Tt) in r["callee"]["key"]
+                        if not ok:
+                            why = "parsed as %s" % r["callee"]["key"].split("parseNumber<")[-1].split(">")[0]
+                    else:
+                        inner = [fn.s(x) for x in fn.walk(fn.s(e)["c"][0]) if fn.s(x)["k"] in P.CALL_KINDS and
+                                 fn.s(x).get("callee", {}).get("q", "").endswith("parseNumber")]
+                        why = ("converted from %s" % inner[0]["callee"]["key"].split("(")[0].split("::")[-1]) if inner else "does not go through parseNumber"
+                ctx.ob(rule, "%s<%s>: a %s is parsed straight into %s" % (meth.split("::")[-1], Tt, t, Tt), ok, fn.where,
+                       "" if ok else "%s and only then converted to %s: numeric strings outside that intermediate type (e.g. "
+                       "\"18446744073709551615\" through a signed 64-bit integer) no longer convert by the rules of stored numbers" % (why, Tt),
+                       nontrivial=False)
+    ctx.floor(rule, "string cases of asIntegral/asFloat", nstr, 16)
     ctx.floor(rule, "asIntegral/isInteger instantiations", ns, 16)
 
     # ---------------------------------------------------------------- R-TAG
